@@ -1,5 +1,6 @@
 """C07 - Commands synthesised by the filter are well-formed plain-decimal G-code."""
 from vlib import env, core, gen, asserts, printer, gread, geom  # noqa: F401
+from props import c06
 
 ID = "C07"
 BUDGET = {"quick": 2500, "thorough": 25000}
@@ -64,7 +65,13 @@ def run_case(case, strict=False):  # pylint: disable=unused-argument,too-many-br
         out.append({"tag": "c07_firmware_reading", "at": None, "msg": "%d numbers of the forwarded stream were cut at an exponent marker" % tr.pf.exp_reads})
     # intended values: relations between the two executions
     out += [f for f in asserts.c03(tr) if f["tag"] in ("c03_position",)]
-    out += [f for f in asserts.c04(tr) if f["tag"] in ("c04_e_outside", "c04_e_coordinate")]
+    out += [f for f in asserts.c04(tr) if f["tag"] in ("c04_e_outside", "c04_e_coordinate", "c04_deposit")]
+    # generated retraction / recovery pairs must move exactly the intended amount: depth relations of C05
+    out += [f for f in asserts.c05(tr, bool(case.get("meta", {}).get("fw"))) if f["tag"] in ("c05_deeper", "c05_shallower", "c05_not_recovered", "c05_fw_params")]
+    # merged deferred commands carry exactly the latest value of every parameter (C06 reference model)
+    ext_cfg = cfg.get("ext") if cfg.get("ext") is not None else core.DEFAULT_EXT
+    flush, _, _ = c06.check_trace(tr, ext_cfg, cfg.get("enter") or [], cfg.get("exit") or [])
+    out += [dict(f, tag="c07_merged_value") for f in flush if f["tag"] == "c06_flush"]
     cl2, _ = asserts.classes(tr, case)
     return out, {"nontrivial": nontrivial, "classes": sorted(cl | cl2), "truncated": tr.truncated,
                  "excluded_known": case.get("meta", {}).get("excluded_known", 0), "extra": {"synthesised_commands": nsynth},
